@@ -6,8 +6,10 @@ package main
 
 import (
 	"fmt"
+	"go/constant"
 	"go/token"
 	"go/types"
+	"os"
 	"sort"
 
 	"golang.org/x/tools/go/ssa"
@@ -124,7 +126,37 @@ func tableIndexed(x ssa.Value, v ssa.Value) (*ssa.Global, bool) {
 // guardSet: the values of v (within u) for which guard g holds, when g is a comparison of v with a
 // constant or of table[v] with a constant; ok is false for other guards.
 func guardSet(g guard, v ssa.Value, u ival) (iset, bool) {
+	return guardSetD(g, v, u, 0)
+}
+
+func guardSetD(g guard, v ssa.Value, u ival, depth int) (iset, bool) {
 	g = normGuard(g)
+	// a || b and a && b used as a value: a phi of booleans, one edge per way the value came about
+	if phi, isPhi := g.cond.(*ssa.Phi); isPhi && depth < 3 {
+		var un iset
+		for i, e := range phi.Edges {
+			pred := phi.Block().Preds[i]
+			es := reachSetD(pred, v, u, depth+1)
+			if len(pred.Instrs) > 0 {
+				if ifi, ok := pred.Instrs[len(pred.Instrs)-1].(*ssa.If); ok && pred.Succs[0] != pred.Succs[1] {
+					if cs, ok := guardSetD(guard{ifi.Cond, pred.Succs[0] == phi.Block(), ifi}, v, u, depth+1); ok {
+						es = es.intersect(cs)
+					}
+				}
+			}
+			if k, isC := e.(*ssa.Const); isC && k.Value != nil && k.Value.Kind() == constant.Bool {
+				if constant.BoolVal(k.Value) != g.val {
+					es = nil
+				}
+			} else if cs, ok := guardSetD(guard{e, g.val, g.at}, v, u, depth+1); ok {
+				es = es.intersect(cs)
+			} else {
+				return nil, false
+			}
+			un = append(un, es...)
+		}
+		return un.norm(), true
+	}
 	x, op, k, ok := intCmp(g.cond)
 	if !ok {
 		return nil, false
@@ -197,6 +229,9 @@ func reachSet(b *ssa.BasicBlock, v ssa.Value, u ival) iset {
 }
 
 func reachSetD(b *ssa.BasicBlock, v ssa.Value, u ival, depth int) iset {
+	if depth > 6 {
+		return iset{u}
+	}
 	// a block with several predecessors (multi-value case clause): union over the incoming edges
 	if len(b.Preds) > 1 && depth < 3 {
 		allCmp := true
@@ -206,7 +241,7 @@ func reachSetD(b *ssa.BasicBlock, v ssa.Value, u ival, depth int) iset {
 			constrained := false
 			if len(p.Instrs) > 0 {
 				if ifi, ok := p.Instrs[len(p.Instrs)-1].(*ssa.If); ok && p.Succs[0] != p.Succs[1] {
-					if cs, ok := guardSet(guard{ifi.Cond, p.Succs[0] == b, ifi}, v, u); ok {
+					if cs, ok := guardSetD(guard{ifi.Cond, p.Succs[0] == b, ifi}, v, u, depth+1); ok {
 						es = es.intersect(cs)
 						constrained = true
 					}
@@ -217,14 +252,48 @@ func reachSetD(b *ssa.BasicBlock, v ssa.Value, u ival, depth int) iset {
 			}
 			un = append(un, es...)
 		}
+		if os.Getenv("E8_DEBUG") != "" {
+			fmt.Fprintf(os.Stderr, "reachSetD block %d preds %d allCmp %v un %s\n", b.Index, len(b.Preds), allCmp, un.norm())
+		}
 		if allCmp {
 			return un.norm()
 		}
 	}
 	s := iset{u}
 	for _, g := range blockGuards(b) {
-		if cs, ok := guardSet(g, v, u); ok {
+		if cs, ok := guardSetD(g, v, u, depth+1); ok {
 			s = s.intersect(cs)
+		}
+	}
+	// the nearest dominator that merges several constrained edges (`case a, b:` / `if x == a || x == b`)
+	// bounds what reaches b as well
+	if depth < 3 {
+		for d := b.Idom(); d != nil; d = d.Idom() {
+			if len(d.Preds) < 2 {
+				continue
+			}
+			allCmp := true
+			var un iset
+			for _, p := range d.Preds {
+				es := reachSetD(p, v, u, depth+1)
+				constrained := false
+				if len(p.Instrs) > 0 {
+					if ifi, ok := p.Instrs[len(p.Instrs)-1].(*ssa.If); ok && p.Succs[0] != p.Succs[1] {
+						if cs, ok := guardSetD(guard{ifi.Cond, p.Succs[0] == d, ifi}, v, u, depth+1); ok {
+							es = es.intersect(cs)
+							constrained = true
+						}
+					}
+				}
+				if !constrained {
+					allCmp = false
+				}
+				un = append(un, es...)
+			}
+			if allCmp {
+				s = s.intersect(un.norm())
+			}
+			break
 		}
 	}
 	return s
